@@ -495,7 +495,30 @@ def _scan_pad_threshold(obj):
             rmax = K
         else:
             rmax = None         # the length store is taken for LARGE offsets: upside down
-        out.append({'fn': fn_of.get(a), 'a': a, 'cmp': b, 'reg': reg, 'K': K, 'jcc': mn, 'L': L, 'rmax': rmax,
+        # the other edge compresses the block and re-uses it for the length alone: what it stores into [blk, blk + L) before the length
+        nofit = fall if lt is not None else tgt
+        cover = []
+        x = nofit
+        n = 0
+        called = False
+        while x is not None and x in insns and n < 80:
+            n += 1
+            i3 = insns[x]
+            if i3['mn'] in ('ret', 'jmp') or i3['mn'] in asmint.JCC:
+                break
+            if i3['mn'] == 'call':
+                called = True
+            mm = re.match(r'^(?:(XMMWORD|QWORD|DWORD|WORD|BYTE) PTR )?\[(\w+)(?:\+(0x[0-9a-f]+))?\],(\w+)$', i3['ops'].strip()) \
+                if re.match(r'^v?mov', i3['mn']) else None
+            if mm and mm.group(2) == base and called:
+                d3 = (int(mm.group(3), 16) if mm.group(3) else 0) - disp
+                w3 = {'XMMWORD': 16, 'QWORD': 8, 'DWORD': 4, 'WORD': 2, 'BYTE': 1}.get(mm.group(1) or '', 8 if mm.group(4).startswith('r') else 16)
+                if d3 == L:
+                    break
+                cover.append((d3, w3))
+            x = order[pos[x] + 1] if pos[x] + 1 < len(order) else None
+        gaps = sorted(set(range(L)) - {q for d3, w3 in cover for q in range(d3, d3 + w3)}) if called and cover else []
+        out.append({'fn': fn_of.get(a), 'a': a, 'cmp': b, 'reg': reg, 'K': K, 'jcc': mn, 'L': L, 'rmax': rmax, 'gaps': gaps[:8],
                     'marker': ins['txt'], 'test': insns[b]['txt'] + '; ' + j['txt']})
     return out
 
@@ -507,7 +530,7 @@ def SUB64(r_):
 
 def pad_thresholds():
     """{asm source: [facts]} - see _scan_pad_threshold"""
-    return _cached('padthr1', _scan_pad_threshold)
+    return _cached('padthr2', _scan_pad_threshold)
 
 
 def dupstore_fixture():
@@ -541,3 +564,123 @@ if __name__ == '__main__':
             if (near and 'zero' not in f['defs'] and 'const' not in f['defs']) or '-v' in sys.argv:
                 print(rel, f['fn'], hex(f['b']), f['first'], '|', hex(f['a']), f['second'], '|', f['delta'], f['defs'], f['def_txt'])
     print(c)
+
+
+
+# ---------------------------------------------------------------------------------------------------------------------------------------
+# the same store issued twice in a row
+
+def _scan_repeat_stores(obj):
+    """consecutive, textually identical store instructions (same mnemonic, address, mask and source register): the second one writes what the
+    first just wrote - in an unrolled clear / copy loop the address was meant to advance"""
+    from . import asmint
+    insns, labels, funcs, syms = asmint.parse_obj(obj)
+    order = sorted(insns)
+    starts = {a: n for n, a in funcs.items()}
+    cur = None
+    out = []
+    nstores = 0
+    prev = None
+    for a in order:
+        if a in starts:
+            cur = starts[a]
+        ins = insns[a]
+        ops = ins['ops'].split(',')
+        is_store = bool(re.match(r'^v?mov', ins['mn'])) and len(ops) >= 2 and '[' in ops[0] and 'rip' not in ops[0]
+        if is_store:
+            nstores += 1
+            if prev is not None and insns[prev]['txt'] == ins['txt'] and not labels.get(a):
+                out.append({'fn': cur, 'a': a, 'txt': ins['txt']})
+        prev = a if is_store else None
+    return {'stores': nstores, 'repeats': out}
+
+
+def repeat_stores():
+    return _cached('rep1', _scan_repeat_stores)
+
+
+def repeat_store_fixture():
+    src = os.path.join(os.path.dirname(__file__), 'data', 'fixtures', 'repstore.asm')
+    outdir = os.path.join(build.scratch(), 'obj_fixture')
+    os.makedirs(outdir, exist_ok=True)
+    out = os.path.join(outdir, 'repstore.%d.o' % os.getpid())
+    nasm = build.asm_entries()[0]['args'][0]
+    r = subprocess.run([nasm, '-f', 'elf64', '-o', out, src], capture_output=True, text=True)
+    if r.returncode != 0:
+        raise build.AnalysisBroken('cannot assemble the S14 fixture: ' + r.stderr[-300:])
+    try:
+        return _scan_repeat_stores(out)
+    finally:
+        try:
+            os.remove(out)
+        except OSError:
+            pass
+
+
+# ---------------------------------------------------------------------------------------------------------------------------------------
+# a length known to be below a bound has a larger constant subtracted from it
+
+def _scan_len_underflow(obj):
+    """`cmp r, K; jb/jbe L` ... `L:` (reached by that jump only) ... `sub r, C` with C above what r can be at L: the unsigned length wraps to a
+    huge value (and whatever is sized by it reads or writes far too much)"""
+    from . import asmint
+    insns, labels, funcs, syms = asmint.parse_obj(obj)
+    order = sorted(insns)
+    pos = {a: i for i, a in enumerate(order)}
+    starts = {a: n for n, a in funcs.items()}
+    fn_of = {}
+    cur = None
+    for a in order:
+        if a in starts:
+            cur = starts[a]
+        fn_of[a] = cur
+    # jump targets and who jumps there
+    incoming = {}
+    for a in order:
+        ins = insns[a]
+        if ins['mn'] == 'jmp' or ins['mn'] in asmint.JCC:
+            try:
+                t = int(ins['ops'].split()[0], 16)
+            except (ValueError, IndexError):
+                continue
+            incoming.setdefault(t, []).append(a)
+    out = []
+    nsites = 0
+    for t, srcs in incoming.items():
+        if len(srcs) != 1 or t not in insns:
+            continue
+        j = srcs[0]
+        if insns[j]['mn'] not in ('jb', 'jc', 'jnae', 'jbe', 'jna') or pos.get(j, 0) == 0:
+            continue
+        # the target must not be reachable by falling through from the instruction before it
+        before = insns[order[pos[t] - 1]] if pos[t] > 0 else None
+        if before is None or before['mn'] not in ('jmp', 'ret', 'rep_ret'):
+            continue
+        c = insns[order[pos[j] - 1]]
+        m = re.match(r'^(\w+),(0x[0-9a-f]+)$', c['ops'].strip()) if c['mn'] == 'cmp' else None
+        if not m or SUB64(m.group(1)) is None:
+            continue
+        reg = SUB64(m.group(1))
+        bound = int(m.group(2), 16) - (1 if insns[j]['mn'] in ('jb', 'jc', 'jnae') else 0)      # largest value of reg at the target
+        nsites += 1
+        x = t
+        n = 0
+        while x is not None and x in insns and n < 60:
+            n += 1
+            i2 = insns[x]
+            o = [y.strip() for y in i2['ops'].split(',')] if i2['ops'] else []
+            if i2['mn'] in ('jmp', 'ret', 'call') or (x != t and x in incoming):
+                break
+            if i2['mn'] == 'sub' and len(o) == 2 and SUB64(o[0]) == reg and re.match(r'^0x[0-9a-f]+$', o[1]):
+                cst = int(o[1], 16)
+                if cst < (1 << 31) and cst > bound:
+                    out.append({'fn': fn_of.get(x), 'a': x, 'reg': reg, 'bound': bound, 'sub': cst, 'cmp': c['txt'], 'txt': i2['txt']})
+                break
+            if o and SUB64(o[0]) == reg and i2['mn'] not in ('cmp', 'test') and '[' not in o[0]:
+                break               # redefined
+            x = order[pos[x] + 1] if pos[x] + 1 < len(order) else None
+    return {'sites': nsites, 'findings': out}
+
+
+def len_underflows():
+    return _cached('lenuf1', _scan_len_underflow)
